@@ -174,13 +174,13 @@ let predict (c : string) (obs : string) : string * string * bool =
       let (samples, failed) = instance_run shots in
       let show_s (s : sample) = Printf.sprintf "%d:%s" (int_of_z s.sm_code) (field_of_bool s.sm_err) in
       let ss = List.sort compare (List.map show_s samples) in
-      let p = Printf.sprintf "run=%s n=%d%s" (if failed then "panic" else "ok") (List.length ss) (String.concat "" (List.map (fun x -> " " ^ x) ss)) in
+      let p = Printf.sprintf "run=%s timely=1 n=%d%s" (if failed then "panic" else "ok") (List.length ss) (String.concat "" (List.map (fun x -> " " ^ x) ss)) in
       (* specification: run ok; one sample per attempted request; clean exchange -> S<status>, anything else -> F *)
       let cls (s : string) = (match String.split_on_char ':' s with [code; "0"] -> "S" ^ code | _ -> "F") in
       let want = List.sort compare (List.map cls ss) in
       let v =
         (match split_blank obs with
-         | run :: cnt :: rest ->
+         | run :: timely :: cnt :: rest ->
              (* the documented fatal condition: http2 gun and a target that does not negotiate HTTP/2 (and is reachable) *)
              if failed && h2gun && not target_h2 then (if run = "run=panic" then "ok" else "BAD:documented-fatal-condition-not-fatal")
              else if run = "run=crashed" then "BAD:process-crashed"
@@ -195,11 +195,29 @@ let predict (c : string) (obs : string) : string * string * bool =
              end
              else if run <> "run=ok" then "BAD:run-" ^ (String.sub run 4 (String.length run - 4))
              else if failed then "ok" (* the model predicts a panic the implementation did not have *)
+             else if timely <> "timely=1" then "BAD:configured-timeout-not-honoured"
              else if cnt <> Printf.sprintf "n=%d" (List.length ss) then "BAD:sample-count"
              else if List.sort compare (List.map cls rest) <> want then "BAD:sample-content"
              else "ok"
          | _ -> "BAD:unparsable-observation") in
       (p, v, n > 1 || gun = "scenario")
+  | "grpc" ->
+      let _later = num () in
+      let n = num () in
+      let _downat = next () in
+      let _answ = next () in
+      (* every call ends with some status (200 while the target is there, 503 once it refuses): one sample per ammo *)
+      let shots = List.init n (fun _ -> grpc_shoot (GrpcStatus (z_of_int 200))) in
+      let (samples, failed) = instance_run shots in
+      let p = Printf.sprintf "run=%s n=%d" (if failed || not (grpc_bind true false) then "err" else "ok") (List.length samples) in
+      let v = (match split_blank obs with
+        | run :: cnt :: _ ->
+            if run = "run=panic" then "BAD:run-aborted-by-panic"
+            else if run <> "run=ok" then "BAD:run-" ^ (String.sub run 4 (String.length run - 4))
+            else if cnt <> Printf.sprintf "n=%d" n then "BAD:sample-count"
+            else "ok"
+        | _ -> "BAD:unparsable-observation") in
+      (p, v, true)
   | _ -> ("unknown-case", "BAD:unknown-case", false)
 
 let () = run_cases predict
